@@ -471,7 +471,7 @@ def build(P):
         for i, h in enumerate(hist):
             pre = {"a.txt": b"one\ntwo\n"} if i % 2 == 0 else {}
             ending = r.choice(["eof", "error", "end"])
-            ents = ["DECLARE line, rec, rec2 : STRING", "rec <- \"rec\"\nrec2 <- \"rec2\""] + [stmt(op) for op in h]
+            ents = ["DECLARE line, rec, rec2 : STRING", "rec <- \"rec\"", "rec2 <- \"rec2\""] + [stmt(op) for op in h]
             res, disk = simulate(h, dict(pre))
             # REPL session: each op is an entry; the session then ends (end of input): everything must be on disk
             cases.append(repl_case("C16-h%d" % i, ents, files={k: ("f", v) for k, v in pre.items()}, meta=dict(units=["h%d" % i], expect=res, disk={k: v.decode("latin1") for k, v in disk.items()}, noshrink=True)))
@@ -527,10 +527,10 @@ def build(P):
         if exp is not None:
             errs = r.raw_err.split(core.MARK)
             for i, e in enumerate(exp):
-                er = errs[i + 2] if i + 2 < len(errs) else b""
+                er = errs[i + 3] if i + 3 < len(errs) else b""
                 had = b"Error" in er
-                if e == "err" and not had: msgs.append("step %d (%s) is illegal in this state but was accepted" % (i + 1, c.stdin.split(b"\n")[i + 2].decode())); break
-                if e == "ok" and had: msgs.append("step %d (%s) is legal but was rejected: %r" % (i + 1, c.stdin.split(b"\n")[i + 2].decode(), er[:100])); break
+                if e == "err" and not had: msgs.append("step %d (%s) is illegal in this state but was accepted" % (i + 1, c.stdin.split(b"\n")[i + 3].decode())); break
+                if e == "ok" and had: msgs.append("step %d (%s) is legal but was rejected: %r" % (i + 1, c.stdin.split(b"\n")[i + 3].decode(), er[:100])); break
         if disk is not None and not msgs:
             got = {k: v[1].decode("latin1") for k, v in r.files.items() if v[0] == "f"}
             if got != disk:
